@@ -19,9 +19,27 @@ CLAIMED = {
  'C11': ('proof', 'Theorems tm_step_spec, tm_head_inv, tm_doTransition_spec, tm_accepts_true/false/none_iff, tm_budget_mono, '
          'tm_simulate_trace, tm_simulate_verdict: the model of the simulator realises the Sipser step relation with the library conventions, '
          'three-valued verdict exactly characterised, trace = prefix of the step sequence; for all machines, words, budgets.', '6 C11'),
+ 'C02': ('proof', 'Theorems dfa_words_exact, nfa_words_exact, regexp_words_exact, regexp_words_matches, tm_words_exact (plus, when registered, '
+         'cfg_words_exact_cnf and pda_words_exact): each bounded enumerator model returns exactly the words of length <= n over Sigma that '
+         'the spec language contains (= what the proved acceptance test accepts), for every n including 0. generate_language dispatch is tied by '
+         'the harness. PDA clause under the no-truncation hypothesis the property states.', '6 C02'),
+ 'C03': ('proof', 'Theorems nfaToDfa_spec (termination within the fuel, valid total DFA, same alphabet, initial state = epsilon closure, every state '
+         'reachable, language equal for words of every length), nfaToDfa_sched_indep, nfaToDfa_named (print_state_set names, under injectivity '
+         'of the naming on the constructed subsets), nfaToDfa_loop_partial.', '6 C03'),
+ 'C07': ('proof', 'Theorems cyk_total, cyk_cell_sound, cyk_cell_exact_of_valid (every cell holds exactly the variables deriving the subword), '
+         'cfg_accepts_cnf_sound, cfg_accepts_cnf_iff_of_valid; for arbitrary grammars cfg_accepts_iff composes with the C08 pipeline theorem '
+         '(registered when proved). Tie: every table cell and verdict against a span-saturation oracle on the ORIGINAL grammar.', '6 C07'),
+ 'C08': ('proof', 'Per-phase theorems addStart_spec, removeEps_spec (incl. nullable_exact), elimUnit_spec (incl. derivable_exact, order independence), '
+         'binarise_spec, isolateTerminals_spec (language preserved + postcondition + fresh variables new and pairwise distinct, also beyond 26 '
+         'variables: freshVariable_fresh, freshVariables_distinct); the model tracks the aliasing of Alternative objects that the in-place '
+         'phases observe. Composition toChomsky_spec registered when proved.', '6 C08'),
+ 'C09': ('proof', 'Theorems pda_moves_iff, pda_epsClosure_sound/complete/not_truncated, pda_accepts_sound (every limit, every pop order), '
+         'pda_accepts_complete (whenever no closure on the way is truncated).', '6 C09'),
+ 'C18': ('proof', 'Theorems nfa_union_spec, nfa_concat_spec, nfa_repetition_spec (valid result, epsilon preserved, language = union / concatenation / '
+         'Kleene star) for disjoint operands with equal epsilon symbol and any fresh state; genFresh_fresh (the generated name is never an '
+         'operand state, whatever the counter), nfa_union_history_indep. Operands with different epsilon symbols are covered by the tie only.', '6 C18'),
  'C14': ('proof', 'Theorems product_valid/product_*_lang, complement_*, mapStates_*, noPrefix_*, makeTotal_*, freshState_fresh and the '
-         'finite-language helper specs (lang*_spec, wordsOfLength_spec, wordsUpTo_spec). reverse / no_extend / remove_unreachable / '
-         'reachable_states are modelled and tied (exact language oracle) but their theorems are still being written.', '6 C14'),
+         'finite-language helper specs (lang*_spec, wordsOfLength_spec, wordsUpTo_spec). and reachableStates_zero/pos, removeUnreachable_spec, noExtend_spec, reverse_valid, reverse_lang.', '6 C14'),
 }
 
 NOT_YET = 'check under construction in this round (model/tie exist or are being written; no theorem registered yet); see DESIGN.md section 6'
